@@ -7,7 +7,10 @@ package interp
 import (
 	"fmt"
 	"go/types"
+	"os"
+	"strings"
 	"sync"
+	"time"
 )
 
 type gor struct {
@@ -28,6 +31,15 @@ type sched struct {
 	fail   *pathAbort // set when a non-main goroutine ends the path
 	failV  *Violation
 	points int
+	log    []string
+}
+
+var schedDebug = os.Getenv("SYMGO_SCHEDLOG") != ""
+
+func (s *sched) ev(format string, args ...interface{}) {
+	if schedDebug {
+		s.log = append(s.log, fmt.Sprintf(format, args...))
+	}
 }
 
 func newSched(i *interpreter) *sched {
@@ -72,18 +84,22 @@ func (s *sched) switchTo(g, next *gor) {
 	if next == g {
 		return
 	}
+	s.ev("switch g%d -> g%d", g.id, next.id)
 	s.cur = next
-	next.resume <- true
-	if g.done {
-		return
+	if next.done {
+		panic(fmt.Sprintf("scheduler: switching to finished goroutine g%d %s from g%d %s", next.id, next.name, g.id, g.name))
 	}
-	if ok := <-g.resume; !ok {
+	next.resume <- true
+	ok := <-g.resume
+	s.ev("g%d resumed ok=%v", g.id, ok)
+	if !ok {
 		panic(pathAbort{"killed", ""})
 	}
 }
 
 // failFrom ends the path from the running goroutine g.
 func (s *sched) failFrom(g *gor, pa pathAbort) {
+	s.ev("failFrom g%d %s %s", g.id, pa.kind, pa.msg)
 	if g == s.main {
 		panic(pa)
 	}
@@ -100,6 +116,7 @@ func (s *sched) failFrom(g *gor, pa pathAbort) {
 // block parks the current goroutine until ready() holds.
 func (s *sched) block(ready func() bool, desc string) {
 	g := s.cur
+	s.ev("block g%d %s", g.id, desc)
 	ctx := s.i.ctx
 	for !ready() {
 		g.ready = ready
@@ -197,6 +214,7 @@ func (s *sched) spawn(fn value, args []value, name string) {
 			s.endFrom(*pa)
 			return
 		}
+		s.ev("exit g%d -> g%d", g.id, cands[idx].id)
 		s.cur = cands[idx]
 		cands[idx].resume <- true
 	}()
@@ -220,6 +238,7 @@ func (s *sched) runG(f func()) (pa *pathAbort) {
 
 // endFrom ends the path from a goroutine that has finished running.
 func (s *sched) endFrom(pa pathAbort) {
+	s.ev("endFrom %s %s", pa.kind, pa.msg)
 	if s.fail == nil {
 		s.fail = &pa
 	}
@@ -233,8 +252,14 @@ func (s *sched) killAll() {
 		if g == s.main || g.done {
 			continue
 		}
-		g.done = true
-		g.resume <- false
+		s.ev("kill g%d", g.id)
+		select {
+		case g.resume <- false:
+			g.done = true
+		case <-time.After(30 * time.Second):
+			fmt.Fprintf(os.Stderr, "SCHEDULER STUCK killing g%d %s\n%s\n", g.id, g.name, strings.Join(s.log, "\n"))
+			os.Exit(3)
+		}
 	}
 	s.wg.Wait()
 }
